@@ -108,6 +108,13 @@ type Run struct {
 	caps       []string
 	Exhaustive bool
 	counters   map[string]int64
+	// ReplayMode: no evidence file is written and known findings are not consulted.
+	ReplayMode bool
+}
+
+// NewReplayRun returns a Run that only collects and prints violations (used by --replay).
+func NewReplayRun(property string) *Run {
+	return &Run{Property: property, Tier: "replay", start: time.Now(), deadline: time.Now().Add(time.Hour), known: map[string]int{}, classes: map[string]int{}, Cov: map[string]any{}, Exhaustive: true, counters: map[string]int64{}, ReplayMode: true}
 }
 
 func NewRun(property, tier string) *Run {
@@ -234,10 +241,21 @@ func (r *Run) Finish() int {
 		}
 		shown[key] = true
 		fn := filepath.Join(VerifDir, "replays", fmt.Sprintf("%s-%s-%03d.json", r.Property, r.Tier, i))
-		bs, _ := json.MarshalIndent(v, "", " ")
-		_ = os.WriteFile(fn, bs, 0o644)
+		if r.ReplayMode {
+			fn = "(replayed)"
+		} else {
+			bs, _ := json.MarshalIndent(v, "", " ")
+			_ = os.WriteFile(fn, bs, 0o644)
+		}
 		fmt.Printf("VIOLATION property=%s replay=%s\n", r.Property, fn)
 		fmt.Printf("  class: %s\n  state: %s\n  input: %s\n  observed: %s\n  expected: %s\n  (%d violations in this class)\n", key, v.State, trunc(v.Input, 300), trunc(v.Observed, 400), trunc(v.Expected, 400), r.classes[key])
+	}
+	if r.ReplayMode {
+		if nviol > 0 {
+			return 1
+		}
+		fmt.Println("replay: no violation reproduced")
+		return 0
 	}
 	cov := map[string]any{}
 	for k, v := range r.Cov {
